@@ -1334,3 +1334,47 @@ def m_from_u32(it, ctx, callee, args):
     if ctx.branch(ok):
         return some(Int(v.t, "char"))
     return NONE
+
+
+# ------------------------------------------------------------------------------------------
+# mutable views: the reference to the vector itself stands for `&mut [T]`, element references are paths into its cell
+
+def base_ref(r):
+    """follow references to references down to the one that points at the sequence value"""
+    while isinstance(r, Ref) and isinstance(get_path(r.cell.v, r.path), Ref):
+        r = get_path(r.cell.v, r.path)
+    return r
+
+
+@model(r"<Vec<.*> as (std::ops::|core::ops::)?DerefMut>::deref_mut|Vec::as_mut_slice|<Vec<.*> as AsMut<\[.*\]>>::as_mut")
+def m_vec_deref_mut(it, ctx, callee, args):
+    r = base_ref(args[0])
+    if not (isinstance(r, Ref) and isinstance(deref(r), (VecV, Slice))):
+        raise Inconclusive("deref_mut of %r" % (args[0],))
+    return r
+
+
+@model(r"((core::)?slice::<impl \[.*\]>|Vec)::(last_mut|first_mut|get_mut)")
+def m_elem_mut(it, ctx, callee, args):
+    r = base_ref(args[0])
+    el = elems_of(r)
+    op = _op(callee)
+    if not isinstance(r, Ref):
+        raise Inconclusive("%s of a value that is not behind a reference" % op)
+    if op == "get_mut":
+        idx = args[1]
+        if not isinstance(idx, Int):
+            raise Inconclusive("get_mut with a range")
+        if idx.conc() is None:
+            if ctx.branch(z3.UGE(idx.t, len(el))):
+                return NONE
+            i = ctx.concretize(idx, 0, len(el))
+        else:
+            i = idx.conc()
+            if i >= len(el):
+                return NONE
+    else:
+        if not el:
+            return NONE
+        i = len(el) - 1 if op == "last_mut" else 0
+    return some(Ref(r.cell, r.path + (i,)))
